@@ -5,8 +5,9 @@ change applied each:
 * must-fire variants: hand-written mutants (sa/selftest_variants.py) and the
   confirmed seeded patches under /verif/seeded/<id>/patch.diff -- the property's
   check must exit 1 and (for hand-written ones) name the expected rule;
-* must-stay-silent variants: behaviour-preserving refactorings -- the check must
-  exit 0.
+* must-stay-silent variants: behaviour-preserving refactorings (hand-written ones and the
+  confirmed refactoring patches under /verif/benign/<id>/patch.diff, written by independent
+  sub-agents) -- every check must exit 0.
 
 Scratch copies live under /dev/shm (or $TMPDIR), never under /repo or /verif,
 and are removed as soon as the verdict is recorded."""
@@ -58,10 +59,17 @@ def load_variants():
         d = os.path.dirname(meta_path)
         variants.append({"id": "seed:" + os.path.basename(d), "kind": "mutant", "props": meta.get("detected_by", [meta["property"]]),
                          "patch": os.path.join(d, "patch.diff"), "expect": ""})
+    for meta_path in sorted(glob.glob(os.path.join(VERIF, "benign", "*", "meta.json"))):
+        d = os.path.dirname(meta_path)
+        variants.append({"id": "benign:" + os.path.basename(d), "kind": "benign", "props": ["*"], "patch": os.path.join(d, "patch.diff")})
     return variants
 
 
 def _apply(variant, root):
+    if "transform" in variant:
+        from . import transforms
+        transforms.apply_to_package(root, variant["transform"])
+        return True, ""
     if "patch" in variant:
         r = subprocess.run(["patch", "-p1", "-s", "-d", root, "-i", variant["patch"]], capture_output=True)
         return r.returncode == 0, (r.stdout + r.stderr).decode()[:200]
